@@ -37,6 +37,10 @@ func SanitizeCSSProperty(property string) string {
 	if !identifierPattern.MatchString(property) {
 		return InnocuousPropertyName
 	}
+	// Property names are ASCII case-insensitive, except custom properties (--name), which are case-sensitive.
+	if strings.HasPrefix(property, "--") {
+		return property
+	}
 	return strings.ToLower(property)
 }
 
